@@ -18,6 +18,7 @@ def run(ctx):
     filter_(ctx)
     stale(ctx)
     parity(ctx)
+    evict(ctx)
 
 
 def _mgr(c):
@@ -221,3 +222,67 @@ def parity(ctx):
     stop = tuple({c.bb for c in send})
     R.require(any(d in b.reachable(even_t, no_nodes=stop) for d in dele) and not any(d in b.reachable(odd_t, no_nodes=stop) for d in dele), "delete-iff-even", b.where(bb),
               "ChangeType::Delete is chosen iff cl mod 2 == 0", fail_msg="the Delete/Update choice no longer follows cl parity (even => deleted)")
+
+
+CACHE_TY = re.compile(r"^indexmap::map::IndexMap<\(klukai_types::api::TableName, alloc::vec::Vec<u8>\), i64")
+SHRINKERS = re.compile(r"::(truncate|pop|clear|retain|retain_mut|swap_remove\w*|shift_remove\w*|remove\w*|drain|split_off|swap_take|shift_take|take)$")
+
+
+def evict(ctx):
+    """The causal-length cache is what suppresses an older notification that arrives after a newer one.  It is bounded, so the
+    suppression window is 'the most recently touched keys' only as long as trimming removes the OLDEST entries: the one sanctioned
+    shrink is `cache = cache.split_off(cache.len() - K)` (keeps the K newest, IndexMap is insertion-ordered)."""
+    F = ctx.F
+    R = ctx.rule("C14.evict", "K1+K4", "the causal-length cache in batch_candidates is trimmed only from its oldest end")
+    cos = cm.coroutines_of(F, UPD + "batch_candidates")
+    fam = [x for c in cos for x in F.family(c)]
+    if not R.anchor(fam, "batch_candidates", "coroutine of batch_candidates"):
+        return
+    shr = [(x, c) for x in fam for c in x.calls if CACHE_TY.search(c.self_ty or "") and SHRINKERS.search(c.f)]
+    news = [(x, c) for x in fam for c in x.calls if CACHE_TY.search(c.self_ty or "") and c.name() == "new"]
+    if not R.anchor(news, "cache", "IndexMap<(TableName, pk), cl> cache construction"):
+        return
+    R.ok("shrink-sites", "", "%d shrinking call(s) on the cache: %s" % (len(shr), sorted({c.name() for _, c in shr})), nontrivial=False)
+    for x, c in shr:
+        inst = "%s@%d" % (c.name(), [y for _, y in shr].index(c))
+        if c.name() != "split_off":
+            R.fail(inst, c.where(), "the cache is shrunk with %s: entries other than the oldest can be dropped, so an older notification for a recently changed key is no longer suppressed" % c.name())
+            continue
+        # argument = len(cache) - const
+        org = flow.origins(x, op_place(c.args[1]), at=(c.bb, "T")) if op_place(c.args[1]) is not None else set()
+        from_len = any(o.kind == "call" and o.call.name() == "len" and CACHE_TY.search(o.call.self_ty or "") for o in org)
+        sub = False
+        al = _alias_back(x, op_place(c.args[1])[0]) if op_place(c.args[1]) is not None else set()
+        for bl in x.blocks:
+            for s_ in bl["s"]:
+                if s_[0] == "A" and s_[1][0] in al and s_[2][0] == "bin" and s_[2][1].startswith("Sub"):
+                    lo = flow.origins(x, op_place(s_[2][2]), at=None) if op_place(s_[2][2]) is not None else set()
+                    if any(o.kind == "call" and o.call.name() == "len" for o in lo) and op_const(s_[2][3]) is not None:
+                        sub = True
+        R.require(from_len and sub, inst + ".keeps-newest", c.where(), "split_off(len - K): the tail (most recently inserted keys) is kept",
+                  fail_msg="split_off is not called with `cache.len() - K`: the kept part is not the newest entries")
+        # result replaces the cache
+        back = False
+        recv = flow.origins(x, op_place(c.args[0]), at=(c.bb, "T"))
+        roots = {o.call.bb for o in recv if o.kind == "call" and o.call.name() == "new"}
+        tainted, sinks = flow.taint(x, [c.dest[0]])
+        cache_locals = {y.dest[0] for _, y in news if _ is x}
+        back = bool(cache_locals & tainted) or c.dest[0] in cache_locals
+        R.require(back and bool(roots), inst + ".assigned-back", c.where(), "the kept tail replaces the cache",
+                  fail_msg="the result of split_off is not assigned back to the cache: the cache keeps its OLDEST entries and drops the newest")
+
+
+def _alias_back(b, l):
+    out = {l}
+    changed = True
+    while changed:
+        changed = False
+        for bl in b.blocks:
+            for s in bl["s"]:
+                if s[0] == "A" and len(s[1]) == 1 and s[1][0] in out and s[2][0] in ("use", "cast"):
+                    op = s[2][1] if s[2][0] == "use" else s[2][2]
+                    src = op_local(op)
+                    if src is not None and src not in out:
+                        out.add(src)
+                        changed = True
+    return out
